@@ -306,7 +306,8 @@ def cmdC05 (st : State) : Except String (List String) := do
     let gat := glat.glyphs.getD g default
     let mine := fun (attr : Nat) =>
       ((ga.assigns.filter (fun a => a.attr == attr ∧ (st.ir.classes.getD a.cls []).contains g)).mergeSort (fun a b => a.order ≤ b.order)).map
-        (fun a => ({ line := a.line, override := a.override, value := a.value } : GA.Asg))
+        (fun a => ({ line := a.line, override := a.override,
+                     value := ((a.perGlyph.find? (·.1 == g)).map (·.2)).getD a.value } : GA.Asg))
     for j in [0:ga.numAttrs] do
       if g != ga.marker then
         let want : Int := match GA.specWinner (mine j) with | some w => w.value | none => 0
